@@ -95,7 +95,7 @@ inline void text_mutations(const std::string &v, const std::string &delims, Spli
 }
 
 // ---- OpenPGP binary: positions of packet headers, length octets, sub-packet lengths, MPI length prefixes ----
-struct PgpPos { size_t off; char kind; };   // 'T' tag octet, 'L' first length octet, 'S' sub-packet length, 'A' area length (2 octets), 'M' MPI bit count (2 octets)
+struct PgpPos { size_t off; char kind; };   // 'G' algorithm/version/type octet, 'T' tag octet, 'L' first length octet, 'S' sub-packet length, 'A' area length (2 octets), 'M' MPI bit count (2 octets)
 inline void pgp_walk(const std::string &p, std::vector<PgpPos> &pos) {
 	size_t i = 0;
 	while (i < p.size()) {
@@ -118,6 +118,12 @@ inline void pgp_walk(const std::string &p, std::vector<PgpPos> &pos) {
 		}
 		body = i + 1 + hl;
 		if (body + len > p.size()) break;
+		// algorithm / type / version octets ('G'): unknown or unsupported algorithms take the error paths of the consumers
+		if (tag == 2 && len >= 4 && (p[body] == 4 || p[body] == 5)) { pos.push_back({body, 'G'}); pos.push_back({body + 1, 'G'}); pos.push_back({body + 2, 'G'}); pos.push_back({body + 3, 'G'}); }
+		if (tag == 2 && len >= 17 && p[body] == 3) { pos.push_back({body + 2, 'G'}); pos.push_back({body + 15, 'G'}); pos.push_back({body + 16, 'G'}); }
+		if ((tag == 6 || tag == 14 || tag == 5 || tag == 7) && len >= 6) { pos.push_back({body, 'G'}); pos.push_back({body + 5, 'G'}); }
+		if (tag == 1 && len >= 10) { pos.push_back({body, 'G'}); pos.push_back({body + 9, 'G'}); }
+		if ((tag == 3 || tag == 4 || tag == 8 || tag == 18 || tag == 20) && len >= 2) { pos.push_back({body, 'G'}); pos.push_back({body + 1, 'G'}); }
 		if (tag == 2 && len >= 12 && (p[body] == 4 || p[body] == 5)) {   // signature: sub-packet areas
 			size_t a = body + 4;
 			for (int area = 0; area < 2; area++) {
@@ -155,6 +161,11 @@ inline void pgp_mutations(const std::string &v, SplitMix64 &g, size_t ntrunc, si
 		if (pos[k].kind == 'T') {
 			for (unsigned nt : { 0x80u | (2u << 2), 0xc2u, 0xc6u, 0xc5u, 0xc1u, 0xc8u, 0xcbu, 0xd2u, 0xd4u, 0xc3u, 0xcdu, 0xd1u, 0x83u, 0x8bu, 0x9bu, 0x00u, 0x7fu, 0xffu, 0xfeu })
 				out.push_back({ put(v, o, std::string(1, (char)nt), 1), tag + ":tag" + std::to_string(nt) });
+			continue;
+		}
+		if (pos[k].kind == 'G') {
+			for (unsigned b : { 0u, 1u, 2u, 3u, 4u, 5u, 6u, 7u, 8u, 9u, 10u, 11u, 12u, 14u, 16u, 17u, 18u, 19u, 20u, 21u, 22u, 23u, 24u, 99u, 100u, 110u, 127u, 128u, 255u })
+				out.push_back({ put(v, o, std::string(1, (char)b), 1), tag + ":algo" + std::to_string(b) });
 			continue;
 		}
 		if (pos[k].kind == 'L' || pos[k].kind == 'S') {
